@@ -198,8 +198,79 @@ def lemmas():
     return out
 
 
+# ---- TestStudent.evaluate: the verified pieces are applied to every compared dataset, in order (trace contract)
+def eval_world(nd):
+    from pyvc.verify import World
+    w = World()
+    w.globals['LOGGER'] = SNamespace('LOGGER', dropped=True)
+    for cname in ('TestStudent', 'TestResultStudent', 'DS', 'Arr'):
+        w.class_models[cname] = type(cname, (ClassModel,), {'name': cname, 'fields': {}})(w)
+    w.globals['TestResultStudent'] = SClass('TestResultStudent')
+    w.construct_hooks['TestResultStudent'] = lambda I, args, kwargs: I.alloc('TestResultStudent', dict(zip(('test', 'tstud', 'pvalue'), args)))
+
+    def check_bins(I, a, b):
+        I.trace.append(('check_bins', a, b))
+        if I.path.cond(z3.Bool(I.path.name('bins_differ'))):
+            I.raise_('ValueError')
+    w.globals['check_bins'] = check_bins
+
+    def m_student_test(I, me, a, b):
+        r = I.alloc('Arr', {'what': 't'})
+        I.trace.append(('student_test', a, b, r))
+        return r
+
+    def m_pvalue(I, me, t, ndf):
+        r = I.alloc('Arr', {'what': 'p'})
+        I.trace.append(('pvalue', t, ndf, r))
+        return r
+    w.class_models['TestStudent'].m_student_test = m_student_test
+    w.class_models['TestStudent'].m_pvalue = m_pvalue
+    return w
+
+
+def eval_setup(nd):
+    def setup(I, scope):
+        I.trace = []
+        I.dsref = I.alloc('DS', {})
+        I.dss = [I.alloc('DS', {}) for _ in range(nd)]
+        I.ndf = I.fresh(T('Opt', INT), 'ndf')
+        scope.set('self', I.alloc('TestStudent', {'dsref': I.dsref, 'datasets': list(I.dss), 'ndf': I.ndf}))
+    return setup
+
+
+def c_evaluate(nd):
+    return Contract(SF, 'TestStudent.evaluate', params={}, signals={'ValueError': True}, variant=f'{nd}-datasets')
+
+
+def eval_check(nd):
+    def check(I, scope, outcome):
+        L = f'{SF}::TestStudent.evaluate[{nd}-datasets]'
+        if outcome[0] != 'return':
+            return          # bins differ: the documented ValueError
+        tr = I.trace
+        tests = [e for e in tr if e[0] == 'student_test']
+        pvals = [e for e in tr if e[0] == 'pvalue']
+        checks = [e for e in tr if e[0] == 'check_bins']
+        # either order of the two datasets: the property makes the verdict symmetric (only the sign of t changes)
+        ok1 = len(tests) == nd and all({id(e[1]), id(e[2])} == {id(I.dsref), id(I.dss[k])} for k, e in enumerate(tests)) and \
+            len(checks) == nd and all(e[1] is I.dsref and e[2] is I.dss[k] for k, e in enumerate(checks))
+        I.path.oblige(f'{L}::post::C05-every-compared-dataset-is-tested-against-the-reference-in-order', ok1, kind='post',
+                      meta={'expr': 'check_bins(dsref, ds_k) and student_test(dsref, ds_k) for k = 0 .. n-1, nothing else'})
+        ok2 = ok1 and len(pvals) == nd and all(e[1] is tests[k][3] and e[2] is I.ndf for k, e in enumerate(pvals))
+        I.path.oblige(f'{L}::post::C05-the-p-value-of-each-dataset-comes-from-its-own-statistic-and-the-ndf-of-the-test', ok2, kind='post',
+                      meta={'expr': 'pvalue(t_k, self.ndf) for k = 0 .. n-1'})
+        res = outcome[1]
+        ok3 = ok2 and isinstance(res, SObj) and res.cls == 'TestResultStudent' and I.getfield(res, 'test') is scope.lookup('self')
+        if ok3:
+            ts, ps = I.getfield(res, 'tstud'), I.getfield(res, 'pvalue')
+            ok3 = isinstance(ts, list) and isinstance(ps, list) and len(ts) == nd and len(ps) == nd and all(ts[k] is tests[k][3] and ps[k] is pvals[k][3] for k in range(nd))
+        I.path.oblige(f'{L}::post::C05-the-result-holds-the-statistics-and-p-values-of-the-datasets-in-order', ok3, kind='post',
+                      meta={'expr': 'TestResultStudent(self, [t_0 ..], [p_0 ..])'})
+    return check
+
+
 def units(tier):
-    return ['dataset_sub', 'student_test_array', 'student_test_0d', 'pvalue', 'threshold', 'test_alpha', 'bool_1', 'bool_2', 'oracles_1', 'oracles_2', 'test_pvalue_1', 'test_pvalue_2', 'lemmas', 'native']
+    return ['dataset_sub', 'evaluate', 'student_test_array', 'student_test_0d', 'pvalue', 'threshold', 'test_alpha', 'bool_1', 'bool_2', 'oracles_1', 'oracles_2', 'test_pvalue_1', 'test_pvalue_2', 'lemmas', 'native']
 
 
 def _replay_native(name, inp):
@@ -230,6 +301,9 @@ def run_unit(unit, tier, seed, known):
             recs.append(r)
         return {'lemmas': recs}
     disc = lambda res: {'functions': [prop.discharge(res, tier, ID, lambda m, r: {'note': 'see model text'}, _replay_native)]}     # noqa
+    if unit == 'evaluate':
+        return {'functions': [prop.discharge(verify_function(eval_world(nd), c_evaluate(nd), setup=eval_setup(nd), extra_check=eval_check(nd)), tier, ID,
+                                             lambda m, r: {'note': 'see model text'}, _replay_native) for nd in (1, 2)]}
     if unit.startswith('student_test'):
         scalar = unit.endswith('0d')
         w = _world(scalar)
